@@ -18,11 +18,30 @@ Definition opt_pos_eqb (a b : option (Z * Z)) : bool :=
   | _, _ => false
   end.
 
-(* check_end = false on a tree whose Token has no `_macro_end` (then r_mend is None everywhere) *)
-Definition tok_matches (check_end : bool) (t : token) (r : rtok) : bool :=
+(* Token._macro_end of a STRING token that does not come from a macro = the position right after the closing quote of
+   the literal (upstream fix 81307c5: the tokenizer records where a string literal ends).  The model's tokens carry
+   t_mend = None for literals and Token.end is computed as (line, col + len(repr(string))) (Model.Layout.tok_end);
+   within the theorems' scope (s_ev = false: the literal is written on one line and its repr() is as long as its
+   source text) that IS the position right after the closing quote (C15_adjacency_is_lexical), so in scope the real
+   `_macro_end` is compared exactly with it; out of scope (escapes that change the length, continuation lines) the
+   end of a literal is not compared here (it is tied by C14's TokEnd model). *)
+Definition is_plain_literal (t : token) : bool := ttype_eqb (t_ty t) STRING && (t_mlen t =? 0).
+Definition lit_end_of (t : token) : option (Z * Z) :=
+  match t_mend t with
+  | Some e => Some e
+  | None => if is_plain_literal t then Some (t_line t, t_col t + repr_len (t_str t)) else None
+  end.
+
+(* check_end = false on a tree whose Token has no `_macro_end` (then r_mend is None everywhere);
+   in_scope: compare the end of plain literals exactly (see above) *)
+Definition tok_matches_sc (check_end in_scope : bool) (t : token) (r : rtok) : bool :=
   ttype_eqb (t_ty t) (r_ty r) && (t_line t =? r_line r) && (t_col t =? r_col r) &&
   str_eqb (t_str t) (s2l (r_str r)) && (t_mlen t =? r_mlen r) &&
-  (negb check_end || opt_pos_eqb (t_mend t) (r_mend r)).
+  (negb check_end ||
+   (if is_plain_literal t then negb in_scope || opt_pos_eqb (lit_end_of t) (r_mend r)
+    else opt_pos_eqb (t_mend t) (r_mend r))).
+(* (also used by Run/C16.v) the end of a plain literal is not compared *)
+Definition tok_matches (check_end : bool) (t : token) (r : rtok) : bool := tok_matches_sc check_end false t r.
 
 Fixpoint all2 {A B} (f : A -> B -> bool) (a : list A) (b : list B) : bool :=
   match a, b with
@@ -44,10 +63,16 @@ Definition model_of (c : case) : result (list (list token)) :=
 Definition is_unsupported (c : case) : bool :=
   match model_of c with Err EUnsupported => true | _ => false end.
 
+Definition case_in_scope (c : case) : bool :=
+  match parse_st (c_mt c) (c_cf c) (c_es c) (c_allow_sc c) (c_line c) (c_col c) (s2l (c_src c)) with
+  | Ok st => negb (s_ev st)
+  | Err _ => false
+  end.
+
 Definition case_ok (c : case) : bool :=
   match model_of c, c_real c with
   | Err EUnsupported, _ => true
-  | Ok sts, Some r => all2 (all2 (tok_matches (c_check_end c))) sts r
+  | Ok sts, Some r => all2 (all2 (tok_matches_sc (c_check_end c) (case_in_scope c))) sts r
   | Err _, None => true
   | _, _ => false
   end.
